@@ -2,7 +2,7 @@
  * fileset_iter_init/free, dup, destroy).  libmy/my_fileset.c, the merger, the readers and the clock are environment
  * stubs with stated contracts; the reader set carries a ghost generation number.  Handles start in ARBITRARY states
  * satisfying the handle invariant H (every history of reloads through any handle, iterators open or not). */
-#include "/repo/mtbl/fileset.c"
+#include "mtbl/fileset.c"
 #include "spec/ghost.h"
 
 #define NR 3
